@@ -96,7 +96,7 @@ Proof.
   intros o args i s W Hp Hi Hv Hr.
   destruct (constrained i s) eqn:Hc.
   - destruct (exec_exact o args i s W Hi Hv Hc) as (mc & mv & Bc & Bv & E).
-    eexists. split; [exact E|]. apply step_wf_spec; assumption.
+    eexists. split; [exact E|]. apply step_wf_spec; try assumption. apply pc_ok_needed, Hp.
   - destruct i; cbn [constrained runnable] in Hc, Hr; try discriminate.
     + (* CALL, aliased *)
       destruct o; cbn [instr_of] in Hi;
